@@ -8,6 +8,7 @@ package main
 //	{Kind: "cond", Name: <Lean name>, Func: "Recv.Method", Anchor: <text the condition contains>, Occur: n}
 //	{Kind: "methodset", Name: "crc16", Methods: "Write Sum16 …"}   the type has exactly these methods
 //	{Kind: "block", Name: <Lean name>, Func: "Recv.Method", Anchor: "d.lastTimeOffset", Occur: n, Up: k}
+//	{Kind: "arg" | "slice" | "loopcond", …}            expressions at a structural position: see item_expr.go
 type Item struct {
 	Kind    string
 	Name    string
@@ -16,6 +17,9 @@ type Item struct {
 	Occur   int    // 0: the anchor must be unique in the function; n ≥ 1: the n-th statement (source order) assigning to it
 	Up      int    // go this many statement lists outwards from the anchor before taking the run
 	Methods string // methodset: the space-separated names of ALL methods of type Name (each translated by a func item)
+	Arg     int    // arg: which argument of the call (0-based)                                  (item_expr.go)
+	Part    string // slice: which bound of the slice expression: "lo" | "hi" | "lo:" | ":hi"    (item_expr.go)
+	Solo    bool   // block: the run is the anchored statement alone (after going Up), not the maximal run around it
 }
 
 // Unit: one Go package → lean/FitModel/Generated/Go_<Name>.lean (namespace Go.<Name>)
